@@ -1,7 +1,7 @@
 /-
   C02 — the unspent set is exactly created-minus-spent; no output is spent twice.
-  Scope of the proofs: non-arbitrating configuration; arbitrating (publisher) mode is tied by the
-  correspondence only (`accept_*` theorems below carry the hypothesis `s.cfg.arb = false`).
+  Scope of the proofs: both configurations (ordinary node and arbitrating publisher); `HashInj b.txns`
+  (distinct transactions of one block have distinct hashes) is the only hash assumption.
 -/
 import Sky.Ledger.Run
 namespace Sky.Props.C02
@@ -9,17 +9,17 @@ open Sky Sky.Ledger
 
 /-- after an accepted block the unspent set is EXACTLY (old set − the block's inputs) + the outputs the
 block's transactions create, nothing else -/
-theorem unspent_eq_created_minus_spent {s s' : State} {b g : Block} (harb : s.cfg.arb = false)
+theorem unspent_eq_created_minus_spent {s s' : State} {b g : Block} (hinj : HashInj b.txns)
     (hg : s.chain.head? = some g) (h : execSigned s b = .ok s') :
     s'.unspent = s.unspent.filter (fun u => !(blockInputs b).contains u.id) ++ blockCreated b :=
-  (accepted_block_facts harb hg h).2.2.2.2
+  (accepted_block_facts hinj hg h).2.2.2.2
 
 /-- a block is accepted only if EVERY input it spends is unspent at the current head and no two of
 its transactions (nor one transaction twice) spend the same output -/
-theorem accept_requires_unspent_and_distinct {s s' : State} {b g : Block} (harb : s.cfg.arb = false)
+theorem accept_requires_unspent_and_distinct {s s' : State} {b g : Block} (hinj : HashInj b.txns)
     (hg : s.chain.head? = some g) (hwf : ∀ t ∈ b.txns, WfSound t) (h : execSigned s b = .ok s') :
     (∀ i ∈ blockInputs b, i ∈ s.unspent.map (·.id)) ∧ (blockInputs b).Nodup := by
-  obtain ⟨_, hv, hp, _, _⟩ := accepted_block_facts harb hg h
+  obtain ⟨hv, hp, _, _, _⟩ := accepted_block_facts hinj hg h
   constructor
   · intro i hi
     simp only [blockInputs, List.mem_flatMap] at hi
@@ -37,10 +37,10 @@ theorem accept_requires_unspent_and_distinct {s s' : State} {b g : Block} (harb 
 
 /-- output ids created by an accepted block are pairwise distinct and collide with no existing unspent
 output (the node checks this explicitly; no hash assumption is needed) -/
-theorem created_ids_fresh {s s' : State} {b g : Block} (harb : s.cfg.arb = false)
+theorem created_ids_fresh {s s' : State} {b g : Block} (hinj : HashInj b.txns)
     (hg : s.chain.head? = some g) (h : execSigned s b = .ok s') :
     ((blockCreated b).map (·.id)).Nodup ∧ ∀ u ∈ blockCreated b, u.id ∉ (keptPool s b).map (·.id) := by
-  obtain ⟨_, _, _, hn, _⟩ := accepted_block_facts harb hg h
+  obtain ⟨_, _, hn, _, _⟩ := accepted_block_facts hinj hg h
   obtain ⟨_, _, _, s1, hs1, _⟩ := execSigned_ok h
   obtain ⟨_, htw, _⟩ := unspentProcessBlock_ok hs1
   constructor
@@ -51,11 +51,11 @@ theorem created_ids_fresh {s s' : State} {b g : Block} (harb : s.cfg.arb = false
 
 /-- an output spent by an accepted block is no longer unspent afterwards: it cannot be spent again
 (any later block naming it is rejected by `accept_requires_unspent_and_distinct`) -/
-theorem spent_is_gone {s s' : State} {b g : Block} {G : Nat} (harb : s.cfg.arb = false)
+theorem spent_is_gone {s s' : State} {b g : Block} {G : Nat} (hinj : HashInj b.txns)
     (hg : s.chain.head? = some g) (hinv : Inv s G) (hwf : ∀ t ∈ b.txns, WfSound t)
     (h : execSigned s b = .ok s') : ∀ i ∈ blockInputs b, i ∉ s'.unspent.map (·.id) := by
   intro i hi hmem
-  rw [unspent_eq_created_minus_spent harb hg h, List.map_append, List.mem_append] at hmem
+  rw [unspent_eq_created_minus_spent hinj hg h, List.map_append, List.mem_append] at hmem
   rcases hmem with hm | hm
   · simp only [List.mem_map, List.mem_filter] at hm
     obtain ⟨u, ⟨_, hu2⟩, hu3⟩ := hm
@@ -63,11 +63,8 @@ theorem spent_is_gone {s s' : State} {b g : Block} {G : Nat} (harb : s.cfg.arb =
     simp at hu2
     exact hu2 hi
   · -- a created id equal to a spent id would collide with an existing unspent output
-    obtain ⟨hin, _⟩ := accept_requires_unspent_and_distinct harb hg hwf h
-    obtain ⟨_, _, _, hn, _⟩ := accepted_block_facts harb hg h
-    obtain ⟨_, hpb, _, _⟩ := execSigned_ok h
-    obtain ⟨_, _, ⟨txns, hpt, _⟩, _⟩ := processBlock_ok hg hpb
-    obtain ⟨_, _, _, _, _, hfresh⟩ := processTransactions_nonarb harb hpt
+    obtain ⟨hin, _⟩ := accept_requires_unspent_and_distinct hinj hg hwf h
+    obtain ⟨_, _, _, hfresh, _⟩ := accepted_block_facts hinj hg h
     have hi' : i ∈ outIds b.txns := by
       unfold blockCreated at hm; rw [created_ids] at hm; exact hm
     have := contains_false_iff.mp (hfresh i hi')
